@@ -39,7 +39,8 @@ class C07(Prop):
     # once; task bodies = one call on the operator's own slot; wiring of actual_subscribe pinned
     tie_modules = {
         "RxModel.GenTie.TimeSources": ["subscribeon"],          # subscribe_on: one task, no delay; the task subscribes the source
-        "RxModel.GenTie.DelaySubscription": ["delaysub"],      # delay_subscription: the same task with the configured delay
+        "RxModel.GenTie.DelaySubscription": ["delaysub"],
+        "RxModel.GenTie.TimeSourcesModel": ["subscribeon", "delaysub"],   # the scheduling events = the calls of TW.subscribeFrom      # delay_subscription: the same task with the configured delay
         "RxModel.GenTie.Delay": ["delay"],
         "RxModel.GenTie.DelayThreads": ["delay"],
         "RxModel.GenTie.ObserveOn": ["observeon"],
